@@ -1254,7 +1254,7 @@ func c16r10(c *RC) {
 				f := st.Field(i)
 				if !own {
 					n++
-					c.Check(f.Exported(), "transported:"+short(q)+"."+f.Name(), "", "the field "+f.Name()+" of "+short(q)+" ("+via+") is unexported, and gob silently skips unexported fields: the value arrives on the worker with that field zero — for the key of CompileEnv.Cached, a cache hit recorded for operator k of a task arrives as a hit for operator 0, and the worker compiles a different graph")
+					c.Check(f.Exported(), "transported:"+short(q)+"."+f.Name(), pr.Pos(f.Pos()), "the field "+f.Name()+" of "+short(q)+" ("+via+") is unexported, and gob silently skips unexported fields: the value arrives on the worker with that field zero — for the key of CompileEnv.Cached, a cache hit recorded for operator k of a task arrives as a hit for operator 0, and the worker compiles a different graph")
 				}
 				if _, isIface := f.Type().Underlying().(*types.Interface); isIface {
 					continue
@@ -1267,7 +1267,7 @@ func c16r10(c *RC) {
 		case *types.Struct:
 			for i := 0; i < x.NumFields(); i++ {
 				n++
-				c.Check(x.Field(i).Exported(), "transported:struct."+x.Field(i).Name(), "", "an anonymous struct in the transported invocation has the unexported field "+x.Field(i).Name())
+				c.Check(x.Field(i).Exported(), "transported:struct."+x.Field(i).Name(), pr.Pos(x.Field(i).Pos()), "an anonymous struct in the transported invocation has the unexported field "+x.Field(i).Name())
 				visit(x.Field(i).Type(), via)
 			}
 		}
